@@ -93,4 +93,16 @@ example :
       (match encode a v {} with | .ok (bs, _) => bs | .error _ => []) = [0xba, 2, 0xbd, 1, 104, 0xbd, 0] := by
   refine ⟨rfl, rfl, rfl, rfl⟩
 
+/-- **Not transitive** (machine-checked negative fact; the real trait agrees, checked with
+`static_assert` on `std::tuple<float,float>`, `std::vector<float>`, `std::tuple<float,float,float>`):
+fungibility is reflexive and symmetric but *not* an equivalence relation — a vector is fungible
+with tuples of every length, two tuples of different lengths are not fungible with each other.
+So the property's "same wire format" is a statement about the *values both types can hold*
+(`C09_same_wire` takes `valid a v` and `valid b v`), not about the types' whole value sets. -/
+theorem C09_not_transitive :
+    let f32 : Ty := .float false
+    fungible (.prod .tuple [f32, f32]) (.seq .vector f32) = true ∧
+    fungible (.seq .vector f32) (.prod .tuple [f32, f32, f32]) = true ∧
+    fungible (.prod .tuple [f32, f32]) (.prod .tuple [f32, f32, f32]) = false := by decide
+
 end Nop
